@@ -19,14 +19,14 @@ from vlib.pipeline import Case, driver_bin
 
 PID = "C09"
 GEN = []
-LEAN = ["Ymq.Props.C09", "Ymq.Props.C07C09", "Ymq.Props.C09Ext"]
+LEAN = ["Ymq.Props.C09", "Ymq.Props.C07C09", "Ymq.Props.C09Ext", "Ymq.Props.C07C09Ext"]
 AUDIT = "Ymq.Audit.C09"
 THEOREMS = ["Ymq.C09.reduce64_inv", "Ymq.C09.step_gcd", "Ymq.C09.gcd_internal_spec", "Ymq.C09.gcd_terminates",
             "Ymq.C09.big_gcd_spec", "Ymq.C09.inv_mod_spec", "Ymq.C09.mulword_no_panic", "Ymq.C09.no_panic",
             "Ymq.C09.no_panic_ext", "Ymq.C09.no_panic_ext_any_width", "Ymq.C09.no_panic_ext_domain_sharp",
             "Ymq.C09.inv_mod_no_panic", "Ymq.C09.zmodn_inv_spec", "Ymq.C09.zmodn_gcd_spec",
             "Ymq.C09.reduce64_first_row", "Ymq.C09.reduce64_row_product", "Ymq.C09.no_panic_ext_wide",
-            "Ymq.C09.no_panic_ext_threshold", "Ymq.C09.inv_mod_total", "Ymq.C09.egcd_i64_half"]
+            "Ymq.C09.no_panic_ext_threshold", "Ymq.C09.inv_mod_total", "Ymq.C09.egcd_i64_half", "Ymq.C09.zmodn_inv_spec_wide"]
 PROFILES = ["release", "chk"]
 TIMEOUT = 20.0
 W = 1 << 64
@@ -397,6 +397,24 @@ def wide_cases(rng, tier):
                 if (i + tw) % 3 == 0:
                     a, b = b, a
                 yield from pair_cases(N, a, b, "wide-" + sh, full=False)
+    # ZmodN::inv / gcd with moduli of 501..505 bits (zmodn_inv_spec_wide): inv_mod::<8> on its sharp domain
+    for i in range(reps * 3):
+        w = 501 + i % 5
+        m = rbits(rng, w) | 1
+        if i % 3 == 1:
+            g = rbits(rng, 40) | 1
+            m = g * (rbits(rng, w - 40) | 1)
+            x = g * rng.randrange(1, m // g) % m
+        elif i % 3 == 2:
+            m, x = adversarial_pair(rng, w)
+            m |= 1
+            x %= m
+        else:
+            x = rng.randrange(m)
+        if m.bit_length() > 505:
+            continue
+        yield Case(f"gcd_zn_inv {m} {x}", tag="wide-zn")
+        yield Case(f"gcd_zn_gcd {m} {x}", tag="wide-zn")
 
 
 def egcd_cases(rng, n):
